@@ -67,14 +67,15 @@ func initSpecDirs() {
 	cdi.SetSpecValidator(schema.WithSchema(s))
 
 	if len(specDirs) > 0 {
-		cache, err := cdi.NewCache(
+		// configure the default cache, which is what all commands use
+		err = cdi.Configure(
 			cdi.WithSpecDirs(specDirs...),
 		)
 		if err != nil {
-			fmt.Printf("failed to create CDI cache: %v\n", err)
+			fmt.Printf("failed to configure CDI cache: %v\n", err)
 			os.Exit(1)
 		}
-		if len(cache.GetErrors()) > 0 {
+		if len(cdi.GetErrors()) > 0 {
 			cdiPrintCacheErrors()
 			os.Exit(1)
 		}
